@@ -438,7 +438,8 @@ def plan_fold(tier, rng, rep, tlcs, mods, plans):
     for r in cases.values():
         kinds[r["val"]["k"]] = kinds.get(r["val"]["k"], 0) + 1
     negzero = sum(1 for r in cases.values() if r["val"]["k"] == "float" and r["val"]["n"] == 0 and r["val"]["s"] == 1)
-    if not hazards or min(kinds.get(k, 0) for k in ("int", "bool", "float")) < 100 or negzero < 10 or folded in (0, len(cases)):
+    # (hazards may be absent: the % helper was repaired, the int ^ bint typing needs 5 tokens)
+    if min(kinds.get(k, 0) for k in ("int", "bool", "float")) < 100 or negzero < 10 or folded in (0, len(cases)):
         core.die("ConstFold case classes missing: kinds=%s hazards=%d negzero=%d folded=%d" % (kinds, len(hazards), negzero, folded))
     # S vs P on every published expression
     for s, r in cases.items():
